@@ -244,7 +244,8 @@ def stepLine (st : St) (line : String) : St × String :=
           delEntityUnchecked := sw "delEntity" a.delEntityUnchecked,
           edgeDelSourceUnchecked := sw "edgeDelSource" a.edgeDelSourceUnchecked,
           jsonAbsentUnchecked := sw "jsonAbsent" a.jsonAbsentUnchecked,
-          authEntityUnchecked := sw "authEntity" a.authEntityUnchecked }
+          authEntityUnchecked := sw "authEntity" a.authEntityUnchecked,
+          announcedDeletedRequested := sw "announcedDeleted" a.announcedDeletedRequested }
       let dR : RoomNode.Defects :=
         { placingEdgeUnchecked := sw "placingEdge" r.placingEdgeUnchecked,
           placingAuthorUnchecked := sw "placingAuthor" r.placingAuthorUnchecked,
